@@ -26,8 +26,9 @@ type SpecParam struct {
 
 // TypeInvClause is an object invariant of every object of a struct type (self denotes a pointer to it).
 type TypeInvClause struct {
-	Type   string
-	Clause Clause
+	Type    string
+	Clause  Clause
+	Assumed bool // astinv: an invariant of trees returned by the parser, assumed (no writer obligations)
 }
 
 // OnStoreClause: at every store to the named field (of any object of that struct type) or to an element of the named
@@ -308,6 +309,18 @@ func (cs *ContractSet) parseContractFile(path, pkgPath string, trusted bool) err
 					return err
 				}
 				cur.ObjInv = append(cur.ObjInv, c)
+			case "astinv":
+				// astinv T [label] expr-over-self: like objinv T, but assumed outright: an invariant of every tree the
+				// parser returns ("programs that parse"), which hand-built trees need not satisfy
+				f := strings.SplitN(rest, " ", 2)
+				if len(f) != 2 {
+					return fmt.Errorf("%s: astinv <type> [label] expr", src)
+				}
+				c, err := parseClause(strings.TrimSpace(f[1]), src)
+				if err != nil {
+					return err
+				}
+				cur.TypeInv = append(cur.TypeInv, TypeInvClause{Type: f[0], Clause: c, Assumed: true})
 			case "onstore":
 				f := strings.SplitN(rest, " ", 2)
 				if len(f) != 2 {
